@@ -14,7 +14,7 @@ class Runs:
     """Abstract paths of one entry in both modes (unrolled paths computed on demand)."""
 
     def __init__(self, prog, entry, raise_ops=False, summaries=None, hooks=None, unroll=2, res=None, label='',
-                 max_paths=40000, drop_asserts=False):
+                 max_paths=20000, drop_asserts=False):
         self.prog = prog
         self.entry = entry
         self.kw = dict(raise_ops=raise_ops, summaries=summaries, hooks=hooks, max_paths=max_paths,
@@ -81,6 +81,10 @@ class Runs:
             unk = [u for u in p.unknowns if unknown_ok is None or not unknown_ok(u)]
             if unk:
                 blocked.append(f'construct outside the interpreted fragment: {unk[0][0]}')
+        if self.inv and not any(p.outcome == 'return' for p in self.inv) and not getattr(check, 'no_return_ok', False):
+            # every rule looks at what the entry point does before it returns: an entry point without a single returning
+            # path (its loop exits were not explored, everything raised ...) leaves nothing to judge
+            blocked.append('no abstract path of the analysed entry point returns')
         if self.res is not None:
             self.res.count(evaluations=n_eval)
         if sample is not None and self.inv:
@@ -189,6 +193,16 @@ def definite(desc, node=None, abstract=None, firm=False):
 def soft(desc, node=None, abstract=None):
     """The abstract state is too weak to decide the obligation on this path (never a refutation)."""
     return Failure(desc, node=node, neg=None, soft=True, abstract=abstract)
+
+
+def require_instances(ob, n, what):
+    """anti-vacuity: an obligation whose rule found no instance to judge is not PROVED (a rule that matches zero sites
+    would pass for ever, whatever the code does)"""
+    from .report import PROVED, UNDECIDED
+    if ob.verdict == PROVED and not n:
+        ob.verdict = UNDECIDED
+        ob.detail = f'no instance of {what} was observed by the rule: nothing was judged'
+    return ob
 
 
 def _norm_key(k):
